@@ -15,6 +15,7 @@ type Shared struct {
 	prog      *ssa.Program
 	implCache sync.Map
 	sideCache sync.Map
+	regionCache sync.Map
 	sizes     types.Sizes
 	initMu    sync.Mutex
 	initInfos map[*ssa.Package]*initInfo
